@@ -89,10 +89,8 @@ def render(ck, sg, cr, sp):
         name = "_symmetry_equiv_pos_as_xyz" if sp["sym"] == "ops" else "_space_group_symop_operation_xyz"
         from .c11 import xyz_text
 
-        ops = list(sg.symop_list)
-        if sp.get("shuffle_ops"):
-            ops = ops[:1] + ck.rng.sample(ops[1:], len(ops) - 1)
-        sym += ["loop_", name] + ["'%s'" % xyz_text(o) for o in ops]
+        ops = [sg.symop_list[j] for j in sp["op_order"]] if sp.get("op_order") else list(sg.symop_list)
+        sym += ["loop_", name] + ["'%s'" % xyz_text(o, sp.get("textstyle", 0)) for o in ops]
     if sp.get("plusnumber"):
         sym += ["_symmetry_Int_Tables_number %d" % (sg.number % 1000), "_symmetry_space_group_name_H-M '%s'" % sg.pdb_name]
     if sp["sym"] == "hm":
@@ -157,11 +155,30 @@ def render(ck, sg, cr, sp):
     return "\n".join(L) + "\n"
 
 
-def expected(sg, cr, adptype):
+def classes_in_order(sg, x0, order):
+    """exact orbit with the operations taken in the given order (the order of the CIF operator loop)"""
+    from .c02 import exact_ops, apply
+
+    ops = exact_ops(sg)
+    pos, cls, index = [], [], {}
+    for i in order:
+        p = apply(ops[i], x0, (Fraction(0),) * 3)
+        if p not in index:
+            index[p] = len(pos)
+            pos.append(p)
+            cls.append([])
+        cls[index[p]].append(i)
+    return pos, cls
+
+
+def expected(sg, cr, adptype, op_order=None):
     """Oracle: independent exact expansion. Returns list of atom dicts."""
     out = []
     for s in cr["sites"]:
-        opos, ocls = oracle_classes(sg, s["x"], (Fraction(0),) * 3)
+        if op_order:
+            opos, ocls = classes_in_order(sg, s["x"], op_order)
+        else:
+            opos, ocls = oracle_classes(sg, s["x"], (Fraction(0),) * 3)
         el = s["tsym"][:1].upper() + s["tsym"][1:].lower()
         for j, (p, cl) in enumerate(zip(opos, ocls)):
             lab = s["label"] if j == 0 else "%s_%d" % (s["label"], j + 1)
@@ -233,9 +250,12 @@ def spellings(ck, sg, unique_hm, unique_full, number_ok):
         sps.append(dict(base, sym="hmfull", B=True, cartn=True))
     if number_ok:
         sps.append(dict(base, sym="number", esd=True, shufloops=True))
+    order = list(range(len(sg.symop_list)))
+    ck.rng.shuffle(order)
+    sps.append(dict(base, sym="ops", op_order=order, textstyle=ck.rng.choice([1, 2, 3])))
+    sps.append(dict(base, sym="ops2", textstyle=ck.rng.choice([1, 2, 3]), plusnumber=(0 < sg.number % 1000 <= 230)))
     if ck.tier == "thorough":
         sps.append(dict(base, sym="ops2", B=True, cartn=True, esd=True, shufcols=True, shufloops=True))
-        sps.append(dict(base, sym="ops", shuffle_ops=True))
     return sps
 
 
@@ -304,7 +324,7 @@ def run(ck):
             spell_count[sp["sym"]] = spell_count.get(sp["sym"], 0) + 1
             text = render(ck, sg, cr, sp)
             key = "cif:%s:%s" % (sg.number, "+".join(k for k, v in sorted(sp.items()) if v is True) + ":" + sp["sym"])
-            exp_sp = expected(sg, cr, sp["adptype"])
+            exp_sp = expected(sg, cr, sp["adptype"], sp.get("op_order"))
             repl = {"kind": "input", "setting": sg.number, "spelling": sp, "cif": text,
                     "expected": [{"label": e["label"], "element": e["element"], "xyz": [str(v) for v in e["xyz"]], "occ": str(e["occ"]), "kind": e["kind"],
                                   "U": ([[str(v) for v in r] for r in e["U"]] if e["kind"] == "aniso" else str(e["U"]))} for e in exp_sp]}
@@ -318,7 +338,7 @@ def run(ck):
                 ck.fail(key, "CIF of %s #%s in spelling %r gives no structure" % (sg.short_name, sg.number, sp), repl)
                 continue
             prob = compare(stru, exp_sp)
-            if prob is None and not sp.get("shuffle_ops"):
+            if prob is None and not sp.get("op_order"):
                 sgp = p.spacegroup
                 if sgp is not sg and sorted(str(o) for o in sgp.symop_list) != sorted(str(o) for o in sg.symop_list):
                     prob = "parser.spacegroup is #%s, not the tabulated setting #%s" % (getattr(sgp, "number", None), sg.number)
@@ -327,6 +347,8 @@ def run(ck):
             if prob:
                 ck.fail(key, "CIF of %s #%s (%s): %s" % (sg.short_name, sg.number, sp["sym"], prob), dict(repl, detail=prob))
                 continue
+            if sp.get("op_order"):
+                continue  # a different operator order legitimately changes the order of the images
             if first is None:
                 first = (stru, sp, text)
             else:
@@ -338,6 +360,8 @@ def run(ck):
             ln, D = model_line(sg, cr)
             lines.append(ln)
             meta.append((sg, cr, D, first[0]))
+    nreuse = reuse_stream(ck, pick, allstrata, getParser)
+    ck.coverage["evaluations"] += nreuse
     try:
         outs = common.driver(lines)
     except common.DriverBroken as e:
@@ -386,10 +410,70 @@ def run(ck):
                 {"kind": "proof-obligation", "theorem": info["failed_modules"], "errors": info["errors"]}, no_failing_input=True)
 
 
+def reuse_stream(ck, pick, allstrata, getParser):
+    """One parser object used for several files in a row (parseFile): every result must equal that of a fresh parser."""
+    import shutil
+    import tempfile
+
+    base = {"sym": "ops", "esd": False, "B": False, "cartn": False, "adptype": True, "shufcols": False, "shufloops": False}
+    tmp = tempfile.mkdtemp(prefix="c07_")
+    n = 0
+    try:
+        groups = [g for g in pick if allstrata.get(g.number)][:: max(1, len(pick) // 25)]
+        for sg in groups:
+            cr = make_crystal(ck, sg, allstrata[sg.number])
+            # the same labels with the ADP information given in different ways
+            texts = []
+            for adptype, forced in ((True, "iso"), (False, "aniso"), (True, None)):
+                cr2 = {"cell": cr["cell"], "sites": [dict(s_, mode=(forced or s_["mode"])) for s_ in cr["sites"]]}
+                texts.append((render(ck, sg, cr2, dict(base, adptype=adptype)), cr2, adptype))
+            shared = getParser("cif")
+            hist = []
+            for k, (text, cr2, adptype) in enumerate(texts):
+                path = os.path.join(tmp, "f%d_%d.cif" % (sg.number, k))
+                with open(path, "w") as f:
+                    f.write(text)
+                hist.append(text)
+                n += 1
+                try:
+                    s_shared = shared.parseFile(path)
+                    s_fresh = getParser("cif").parseFile(path)
+                except Exception as e:
+                    ck.fail("cif-reuse:%s" % sg.number, "parseFile raised %r on a rendered CIF of #%s" % (e, sg.number),
+                            {"kind": "history", "setting": sg.number, "stream": "reuse", "texts": hist})
+                    break
+                d = same_structure(s_fresh, s_shared) or compare(s_shared, expected(sg, cr2, adptype))
+                if d:
+                    ck.fail("cif-reuse:%s" % sg.number, "a P_cif object used for a second file gives a different structure than a fresh parser (%s #%s, file %d): %s" % (
+                        sg.short_name, sg.number, k + 1, d), {"kind": "history", "setting": sg.number, "stream": "reuse", "texts": hist, "detail": d})
+                    break
+    finally:
+        shutil.rmtree(tmp, ignore_errors=True)
+    return n
+
+
 def replay(path):
     common.use_repo()
     r = json.load(open(path))
     from diffpy.structure.parsers import getParser
+
+    if r.get("stream") == "reuse":
+        import shutil
+        import tempfile
+
+        tmp = tempfile.mkdtemp(prefix="c07r_")
+        try:
+            shared = getParser("cif")
+            bad = 0
+            for k, text in enumerate(r["texts"]):
+                pth = os.path.join(tmp, "f%d.cif" % k)
+                open(pth, "w").write(text)
+                d = same_structure(getParser("cif").parseFile(pth), shared.parseFile(pth))
+                print("file %d:" % (k + 1), d)
+                bad = bad or bool(d)
+            return 1 if bad else 0
+        finally:
+            shutil.rmtree(tmp, ignore_errors=True)
 
     if "cif" not in r:
         print("no CIF text in replay")
